@@ -296,3 +296,9 @@ package casketfile
 //@   requires p != nil && p.cursor >= -1
 //@   modifies Dispenser.cursor, Dispenser.tokens, parser.block, ServerBlock.Keys, ServerBlock.Tokens, parser.eof, parser.definedSnippets, MV:map[string][]github.com/tmpim/casket/casketfile.Token, MD:map[string][]github.com/tmpim/casket/casketfile.Token, E:github.com/tmpim/casket/casketfile.Token, E:github.com/tmpim/casket/casketfile.ServerBlock, ghost:fileLookups
 //@   loop 1 invariant p != nil && p.cursor >= -1
+
+//@ unit parser_entry_sweep props=C10,C11 nilchecks=on nonnil_params=on filter=`casketfile\.(Parse|allTokens|NewDispenser|NewDispenserTokens)$|casketfile\.lexer\)\.load$|casketfile\.parser\)\.doSingleImport$`
+//@ // the entry points of the Casketfile package (Parse, the token-only lexing of imported files, the dispenser
+//@ // constructors, loading the lexer, importing one file): safety sweep for every input
+//@ use casketfile/contracts_verif.go:dispenser_api
+//@ use @verif/specs/stdlib.spec:stdlib
